@@ -187,8 +187,39 @@ class Zone:
             self.add_cmp("Ne", t, ("int", v))
 
     def add_facts(self, facts):
-        for f in facts:
+        facts = list(facts)
+        plain = [f for f in facts if f[0] in ("eq", "ne")]
+        for f in plain:
             self.add_fact(f)
+        # implications  ('imp', trigger, consequence): fire when the trigger is a known fact
+        have = set(plain)
+        changed = True
+        imps = [f for f in facts if f[0] == "imp"]
+        while changed:
+            changed = False
+            for f in list(imps):
+                if f[1] in have or self._fact_entailed(f[1]):
+                    imps.remove(f)
+                    cons = f[2] if isinstance(f[2], list) else [f[2]]
+                    for c in cons:
+                        if c[0] == "imp":
+                            imps.append(c)
+                        else:
+                            self.add_fact(c)
+                            have.add(c)
+                    changed = True
+
+    def _fact_entailed(self, f):
+        """cheap check whether a comparison fact already follows from the closure"""
+        kind, t, v = f
+        if isinstance(t, tuple) and t and t[0] == "bin" and t[1] in ("Lt", "Le", "Gt", "Ge", "Eq", "Ne") and v in (0, 1):
+            truth = (kind == "eq") == bool(v)
+            op = t[1] if truth else {"Lt": "Ge", "Le": "Gt", "Gt": "Le", "Ge": "Lt", "Eq": "Ne", "Ne": "Eq"}[t[1]]
+            try:
+                return self.entails(op, t[2], t[3])
+            except Exception:
+                return False
+        return False
 
     # ---- closure -------------------------------------------------------------------------------
     def _axioms(self):
@@ -354,6 +385,34 @@ class Zone:
     def _entailed_le0(self, lin, dist):
         d, c = lin
         items = [(x, k) for x, k in d.items() if k != 0]
+        if len(items) > 2:
+            # pair atoms with opposite coefficients and replace the pair by its derived upper bound
+            items = list(items)
+            progress = True
+            while progress and len(items) > 2:
+                progress = False
+                for i in range(len(items)):
+                    for j in range(len(items)):
+                        if i == j:
+                            continue
+                        (x, kx), (y, ky) = items[i], items[j]
+                        if kx > 0 and ky < 0 and x in self.ix and y in self.ix and self.ix[x] < len(dist) and self.ix[y] < len(dist):
+                            ub = dist[self.ix[x]][self.ix[y]]
+                            if ub == INF:
+                                continue
+                            k = min(kx, -ky)
+                            c += k * ub
+                            rest = [it for n, it in enumerate(items) if n not in (i, j)]
+                            if kx - k:
+                                rest.append((x, kx - k))
+                            if ky + k:
+                                rest.append((y, ky + k))
+                            items = rest
+                            progress = True
+                            break
+                    if progress:
+                        break
+            d = dict(items)
         if not items:
             return c <= 0
         for x, _ in items:
